@@ -624,6 +624,8 @@ func groupMain(args []string) {
 	var (
 		nHist = fs.Int("n", 150, "random histories")
 		nFree = fs.Int("free", 20, "free-running runs")
+		nWatch = fs.Int("watch", 10, "observer scenarios over deep group chains (watch.go)")
+		nRounds = fs.Int("watchrounds", 80, "gated rounds per observer scenario")
 		seed  = fs.Uint64("seed", 1, "seed")
 		out   = fs.String("out", "gcases.v", "cases file")
 		stats = fs.String("stats", "gstats.json", "stats file")
@@ -724,10 +726,44 @@ func groupMain(args []string) {
 			st.Fail(map[string]any{"kind": "group-free", "case": fc, "problems": problems})
 		}
 	}
+	// observers against the propagation up deep chains (watch.go)
+	wr := rng.Fork()
+	wfail := 0
+	for _, fc := range watchCases(wr, *nWatch, *nRounds) {
+		if wfail >= 3 {
+			st.Count("gwatch:skipped-after-failures")
+			continue
+		}
+		res := runGroupWatch(fc)
+		cf.Add(watchCoq(fc, res))
+		st.CaseIndex = append(st.CaseIndex, fc)
+		st.Case(fmt.Sprintf("%v", *fc), fc.Depth >= 2 && res.Reads > 0)
+		st.Count(fmt.Sprintf("gwatch:depth=%s", depthClass(fc.Depth)))
+		st.Count(fmt.Sprintf("gwatch:submitters=%d", fc.Submitters))
+		st.Hist["gwatch:group-reads"] += int(res.Reads)
+		st.Hist["gwatch:idle-reads"] += int(res.IdleReads)
+		st.Hist["gwatch:rounds"] += int(int64(fc.Rounds))
+		if len(res.Problems) > 0 {
+			wfail++
+			st.Fail(map[string]any{"kind": "group-watch", "case": fc, "problems": res.Problems})
+		}
+	}
 	if err := cf.Write(*out); err != nil {
 		vx.Die("write cases: %v", err)
 	}
 	if err := st.Write(*stats); err != nil {
 		vx.Die("write stats: %v", err)
 	}
+}
+
+func depthClass(d int) string {
+	switch {
+	case d <= 3:
+		return fmt.Sprint(d)
+	case d < 16:
+		return "4-15"
+	case d < 40:
+		return "16-39"
+	}
+	return "40"
 }
